@@ -202,6 +202,7 @@ func (w *Worker) runItem(it *workItem, fn *ssa.Function) {
 		w: w, harness: it.harness, prefix: it.prefix, model: it.model,
 		memo: map[int32]uint64{}, bind: map[int32]*Term{}, smemo: map[int32]*Term{},
 		varCount: map[string]int{}, globals: map[*ssa.Global]*Value{},
+		frozenCells: map[*Value]string{}, frozenMaps: map[*Map]string{},
 	}
 	if p.model == nil {
 		p.model = Model{}
